@@ -122,6 +122,11 @@ func VerifC17_Ops() {
 			c := s.Copy()
 			n := zzC17Names[zzChoice("name", len(zzC17Names))]
 			before, bok := s.Lookup(n)
+			// the copy is a stack of its own: pop it as far as it allows
+			// (however many scopes the copy has), then write to it
+			for pops := zzChoice("copypops", 3); pops > 0 && len(c.stack) > 1; pops-- {
+				c.Pop()
+			}
 			c.Set(n, -7)
 			c.Push(map[string]any{n: -8})
 			after, aok := s.Lookup(n)
